@@ -83,7 +83,7 @@ def prop(case, rec):
         if L > case.get('max_level', 18):
             rec.skip('level_above_quick_tier_bound')
             continue
-        if omen_ref.count_level(gm, L) > case.get('cap', 50000):
+        if omen_ref.count_level(gm, L) > case.get('cap', 50000) or omen_ref.search_space(gm, L, cap=300000) > 300000:
             rec.skip('level_too_large_inconclusive')
             continue
         sub = dict(case, levels=[L])
@@ -158,7 +158,7 @@ def cases(draw):
 
 
 def run_main(rec, seed, shard, nshards, tier):
-    n = {'quick': 40, 'thorough': 600}[tier]
+    n = {'quick': 120, 'thorough': 1500}[tier]
     cap = {'quick': 1500, 'thorough': 50000}[tier]
     ml = {'quick': 11, 'thorough': 18}[tier]
     core.hyp_run(rec, prop, cases().map(lambda c: dict(c, cap=cap, max_level=ml)), n, seed)
